@@ -151,6 +151,41 @@ pub fn gen_doc(rng: &mut Rng, k: &Knobs) -> Vec<char> {
     out
 }
 
+/// A valid document with one *spine*: `depth` nested containers (arrays and `{"k":` objects mixed)
+/// around a scalar, inside an outer container that goes on after the spine closes; on the way
+/// out some levels get a further sibling, often a number directly before the closer. State that a
+/// parser keeps per nesting level (bit stacks, small counters) wraps around at 64 / 128 / 256.
+pub fn gen_spine_doc(rng: &mut Rng, depth: usize) -> Vec<char> {
+    fn scalar(rng: &mut Rng, out: &mut Vec<char>) {
+        match rng.below(6) { 0 => out.extend("null".chars()), 1 => out.extend("true".chars()), 2 => out.extend("\"s\"".chars()), 3 => out.extend("-1.5e3".chars()), _ => out.push((b'0' + rng.below(10) as u8) as char) }
+    }
+    let sp = |rng: &mut Rng, out: &mut Vec<char>| { if rng.chance(1, 6) { out.push(' '); } };
+    let mut out: Vec<char> = vec![];
+    // outer container with one member before the spine
+    let outer_obj = rng.chance(2, 3);
+    if outer_obj { out.extend("{\"a\":".chars()); } else { out.extend("[0,".chars()); }
+    let obj_weight = rng.below(4); // 0: arrays only … 3: mostly objects
+    let kinds: Vec<bool> = (0..depth).map(|_| rng.below(4) < obj_weight).collect();
+    for &o in &kinds { if o { out.extend("{\"k\":".chars()); } else { out.push('['); } sp(rng, &mut out); }
+    scalar(rng, &mut out);
+    for &o in kinds.iter().rev() {
+        if rng.chance(1, 8) {
+            out.push(','); sp(rng, &mut out);
+            if o { out.extend("\"b\":".chars()); }
+            scalar(rng, &mut out); sp(rng, &mut out);
+        }
+        out.push(if o { '}' } else { ']' });
+    }
+    // the outer container goes on after the spine
+    for i in 0..rng.urange(1, 3) {
+        out.push(','); sp(rng, &mut out);
+        if outer_obj { out.extend(format!("\"b{}\":", i).chars()); }
+        scalar(rng, &mut out); sp(rng, &mut out);
+    }
+    out.push(if outer_obj { '}' } else { ']' });
+    out
+}
+
 /// Structure-biased garbage: token soup that is *not* generally valid (C03 workload).
 pub fn gen_soup(rng: &mut Rng, n: usize) -> Vec<char> {
     const TOK: [&str; 28] = ["{", "}", "[", "]", ":", ",", "\"", "\\", "\\u", "\\ud800", "\\udc00", "null", "true", "false", "nul", "tru", "0", "-", "1.5", "1e", "1e+", "-0.0E-1", " ", "\n", "\"a\"", "é", "😀", "\u{0}"];
